@@ -37,9 +37,10 @@ VARIABLES l,        \* index of the next line to consume
           ndiv,     \* [checked, diverged, skipped] conformance counters
           lastProp, \* the latest proposal broadcast in this run: [k, now, h] (C16)
           initTs,   \* node id -> previous block's timestamp given to the last Start / Reset (C15)
+          echo,     \* node id -> payloads under the node's own identity that came back to it at its current height (said by an earlier incarnation of a restarted validator)
           recPrim   \* heights at which some node became primary of a new view while processing a recovery message (known finding KF-2)
 
-vars == <<l, run, st, acc, sent, lock, maxv, preOk, txq, nviol, cfgs, ndiv, lastProp, recPrim, initTs>>
+vars == <<l, run, st, acc, sent, lock, maxv, preOk, txq, nviol, cfgs, ndiv, lastProp, recPrim, initTs, echo>>
 
 \* TRUE: also check every logged call against the transition relation of DbftNode.tla
 CheckConformance == "VERIF_CONFORM" \in DOMAIN IOEnv /\ IOEnv.VERIF_CONFORM = "1"
@@ -127,6 +128,9 @@ Conflict(a, b) ==
 
 \* payloads of the current height broadcast up to and including callback j of this call
 SentBase(e) == IF e.fresh THEN {} ELSE sent[e.n]
+EchoBase(e) == (IF e.fresh THEN {} ELSE echo[e.n])
+               \cup (IF e.call = "OnReceive" /\ e.post.started /\ e.post.me >= 0     \* ... or are coming back in this very call
+                     THEN {p \in {e.arg} \cup Embedded(e.arg) : p.from = e.post.me /\ p.h = e.post.h} ELSE {})
 SentBefore(e, j) == SentBase(e) \cup UNION {OwnAt(e, k) : k \in {x \in Bcs(e) : x < j}}
 \* KF-1 is the onPrepareRequest path: a node that broadcast the view's proposal itself went through sendPrepareRequest, which
 \* validates what it had received early AFTER storing its request - the known finding does not cover it
@@ -233,7 +237,7 @@ PhaseOrder(e, j) ==
   LET at == e.cb[j].at IN
     at.amev =>
       /\ at.me >= 0 /\ at.pc[at.me + 1].k = "pc"
-      /\ \E p \in SentBefore(e, j) : p.t = "PreCommit" /\ p.h = at.h
+      /\ \E p \in SentBefore(e, j) \cup EchoBase(e) : p.t = "PreCommit" /\ p.h = at.h
       /\ Cardinality({i \in Idx(at) : at.pc[i].k = "pc" /\ at.pc[i].v = at.v}) >= M(at.n)
       /\ at.preDone
 PreBlockOnce(e, j) == preOk[e.n] = 0 \/ e.call \in {"Start", "Reset"}
@@ -308,7 +312,7 @@ NextTxq(e, pre) ==
          ELSE [key |-> k, asked |-> ReqTxs(e) \cap Range(k.ph.txs), given |-> {}]
 Answers(e, pre) ==
   LET s == e.post  q == NextTxq(e, pre)
-      mine == SentBase(e) \cup UNION {OwnAt(e, j) : j \in Bcs(e)} IN
+      mine == SentBase(e) \cup EchoBase(e) \cup UNION {OwnAt(e, j) : j \in Bcs(e)} IN
     ( /\ e.call = "OnTransaction" /\ s.started /\ ~s.watch /\ s.me >= 0 /\ s.me # s.primary /\ ~s.blockDone
       /\ q.key # NoKey /\ q.asked # {} /\ q.asked \subseteq q.given
       /\ ~\E c \in mine : c.t = "ChangeView" /\ c.h = s.h /\ c.v = s.v )
@@ -541,6 +545,12 @@ TopOwn(e) == {e.cb[j].m : j \in Bcs(e)}
 NextSent(e, pre) ==
   LET keep == IF NewHeight(e, pre) THEN {} ELSE sent[e.n] IN
     {p \in keep \cup OwnAll(e) : p.h = e.post.h /\ p.t \in {"PrepareRequest", "PrepareResponse", "Commit", "PreCommit", "ChangeView"}}
+NextEcho(e, pre) ==
+  LET keep == IF NewHeight(e, pre) THEN {} ELSE echo[e.n]
+      got == IF e.call = "OnReceive" /\ e.post.started /\ e.post.me >= 0
+             THEN {p \in {e.arg} \cup Embedded(e.arg) : p.from = e.post.me /\ p.h = e.post.h /\ p.t \in {"PrepareRequest", "PrepareResponse", "Commit", "PreCommit", "ChangeView"}}
+             ELSE {}
+  IN keep \cup got
 NextLock(e, pre) ==
   LET old == IF NewHeight(e, pre) THEN None ELSE lock[e.n]
       ks == {k \in Bc(e, "Commit") \cup Bc(e, "PreCommit") : e.cb[k].m.h = e.post.h}
@@ -563,7 +573,7 @@ NextPreOk(e, pre) == (IF NewHeight(e, pre) THEN 0 ELSE preOk[e.n]) + Cardinality
 -----------------------------------------------------------------------------
 Init == /\ l = 1 /\ run = [call |-> "none"] /\ st = <<>> /\ acc = <<>> /\ sent = <<>> /\ lock = <<>>
         /\ maxv = <<>> /\ preOk = <<>> /\ txq = <<>> /\ nviol = 0
-        /\ cfgs = <<>> /\ ndiv = [checked |-> 0, diverged |-> 0, skipped |-> 0] /\ lastProp = None /\ recPrim = {} /\ initTs = <<>>
+        /\ cfgs = <<>> /\ echo = <<>> /\ ndiv = [checked |-> 0, diverged |-> 0, skipped |-> 0] /\ lastProp = None /\ recPrim = {} /\ initTs = <<>>
         /\ TLCSet(1, ndiv)
 
 StartRun ==
@@ -573,6 +583,7 @@ StartRun ==
        /\ st' = [n \in ns |-> NotStarted]
        /\ acc' = [n \in ns |-> <<>>]
        /\ sent' = [n \in ns |-> {}]
+       /\ echo' = [n \in ns |-> {}]
        /\ lock' = [n \in ns |-> None]
        /\ maxv' = [n \in ns |-> 0]
        /\ preOk' = [n \in ns |-> 0]
@@ -613,8 +624,9 @@ Step ==
         /\ st' = [st EXCEPT ![e.n] = e.post]
         /\ acc' = [acc EXCEPT ![e.n] = NextAcc(e)]
         /\ IF e.panic # "" \/ ~e.post.started
-           THEN UNCHANGED <<sent, lock, maxv, preOk, txq>>
+           THEN UNCHANGED <<sent, lock, maxv, preOk, txq, echo>>
            ELSE /\ sent' = [sent EXCEPT ![e.n] = NextSent(e, pre)]
+                /\ echo' = [echo EXCEPT ![e.n] = NextEcho(e, pre)]
                 /\ lock' = [lock EXCEPT ![e.n] = NextLock(e, pre)]
                 /\ maxv' = [maxv EXCEPT ![e.n] = NextMaxv(e, pre)]
                 /\ preOk' = [preOk EXCEPT ![e.n] = NextPreOk(e, pre)]
@@ -638,14 +650,14 @@ EndRun ==
   /\ LET V == EndViolations(TLog[l]) IN
        /\ \A x \in V : PrintT(<<"VIOL", x[1], x[2], x[3], run.run, 0, -1, "RunEnd">>)
        /\ nviol' = nviol + Cardinality(V)
-  /\ l' = l + 1 /\ UNCHANGED <<run, st, acc, sent, lock, maxv, preOk, txq, cfgs, ndiv, lastProp, recPrim, initTs>>
+  /\ l' = l + 1 /\ UNCHANGED <<run, st, acc, sent, lock, maxv, preOk, txq, cfgs, ndiv, lastProp, recPrim, initTs, echo>>
 
 PairStep ==
   /\ l <= Len(TLog) /\ IsPair(TLog[l])
   /\ LET ok == ShiftOK(TLog[l]) IN
        /\ ~ok => PrintT(<<"VIOL", "C14", "ClockShift", "", run.run, TLog[l].i, 500, TLog[l].a.call>>)
        /\ nviol' = nviol + (IF ok THEN 0 ELSE 1)
-  /\ l' = l + 1 /\ UNCHANGED <<run, st, acc, sent, lock, maxv, preOk, txq, cfgs, ndiv, lastProp, recPrim, initTs>>
+  /\ l' = l + 1 /\ UNCHANGED <<run, st, acc, sent, lock, maxv, preOk, txq, cfgs, ndiv, lastProp, recPrim, initTs, echo>>
 
 Next == StartRun \/ Step \/ EndRun \/ PairStep
 Spec == Init /\ [][Next]_vars
